@@ -44,8 +44,10 @@ pub const OPS: [&str; 47] = [
 /// Run one operation on type T.  `ev` carries: tabs [a, b], ints [i, j, k, m, c, form], strs [s].
 pub fn run_op<T: Tbl>(ev: &Ev) -> Res {
     let n = ev.n;
-    let a = T::t_from_blocks(n, &ev.tabs[0]);
-    let b = T::t_from_blocks(n, &ev.tabs[1]);
+    // operands with a history: built through a construction route chosen by the event (tbl.rs, t_via_route)
+    let d = ev.digest();
+    let a = T::t_via_route(n, &ev.tabs[0], d).0;
+    let b = T::t_via_route(n, &ev.tabs[1], d.rotate_left(17)).0;
     let (i, j, k, m, c, form) = (ev.i(0), ev.i(1), ev.i(2), ev.i(3), ev.i(4), ev.i(5));
     let s = &ev.strs[0];
     match ev.op.as_str() {
